@@ -7,6 +7,7 @@ from ..util import strip_end
 from ._list import render_list
 
 fenced_re = re.compile(r"^[`~]+", re.M)
+_quote_end_re = re.compile(r"(?:\n> ?)*[ \n]*$")
 
 
 class MarkdownRenderer(BaseRenderer):
@@ -116,7 +117,8 @@ class MarkdownRenderer(BaseRenderer):
 
     def block_quote(self, token: Dict[str, Any], state: BlockState) -> str:
         text = indent(self.render_children(token, state), "> ", lambda _: True)
-        text = text.rstrip("> \n")
+        # remove the trailing empty quote lines, but not a ">" of the content
+        text = _quote_end_re.sub("", text, 1)
         return text + "\n\n"
 
     def block_html(self, token: Dict[str, Any], state: BlockState) -> str:
